@@ -180,7 +180,10 @@ class TiffDetails(object):
             else:
                 raise SarpyIOError('Invalid tiff endian string {}'.format(fi_endian))
             # check the magic number
-            self._magic_number = numpy.fromfile(fi, dtype='{}i2'.format(self._endian), count=1)[0]
+            magic = numpy.fromfile(fi, dtype='{}i2'.format(self._endian), count=1)
+            if magic.size != 1:
+                raise SarpyIOError('Not a valid tiff file, the header is too short.')
+            self._magic_number = magic[0]
             if self._magic_number not in [42, 43]:
                 raise SarpyIOError('Not a valid tiff file, got magic number {}'.format(self._magic_number))
 
